@@ -9,6 +9,7 @@ import (
 	"go/token"
 	"os"
 	"path/filepath"
+	"regexp"
 	"sort"
 	"strings"
 	"sync"
@@ -262,6 +263,7 @@ type modelOpts struct {
 	MinMutants, MaxMutants int
 	AllMinusThenPlus       bool // sometimes use the minus-block / plus-block layout
 	AddImport              int  // add a "+import" line to the change in 1 of N cases (0: never)
+	PkgGuard               int  // give the change a package clause in 1 of N cases (0: never): one that holds, a rename, or a near-miss of the file's package name
 }
 
 // genModelCase draws a case; nil means the drawn combination could not be
@@ -314,6 +316,20 @@ func genModelCase(t *rapid.T, o modelOpts) (cs *modelCase, why string) {
 	}
 	if o.AllMinusThenPlus && rapid.IntRange(0, 3).Draw(t, "blockLayout") == 0 {
 		ro.AllMinusThenPlus = true
+	}
+	pkgMode, hostPkg := "", h.file.Name.Name
+	if o.PkgGuard > 0 && rapid.IntRange(0, o.PkgGuard-1).Draw(t, "pkgGuard") == 0 {
+		pkgMode = rapid.SampledFrom([]string{"holds", "holds", "rename", "file-is-external-test", "guard-longer", "guard-is-external-test", "file-longer"}).Draw(t, "pkgMode")
+		switch pkgMode {
+		case "holds", "file-is-external-test", "file-longer":
+			ro.PkgMinus, ro.PkgPlus = hostPkg, hostPkg
+		case "rename":
+			ro.PkgMinus, ro.PkgPlus = hostPkg, hostPkg+"q"
+		case "guard-longer":
+			ro.PkgMinus, ro.PkgPlus = hostPkg+"x", hostPkg+"x"
+		case "guard-is-external-test":
+			ro.PkgMinus, ro.PkgPlus = hostPkg+"_test", hostPkg+"_test"
+		}
 	}
 	r, err := gen.Render(m, ro)
 	if err != nil {
@@ -400,6 +416,19 @@ func genModelCase(t *rapid.T, o modelOpts) (cs *modelCase, why string) {
 		cs.Plants = append(cs.Plants, plantInfo{Tag: tag, Ctx: ctx, Text: txt})
 	}
 	host := gen.InsertAll(h.src, ats, texts)
+	if pkgMode == "file-is-external-test" || pkgMode == "file-longer" {
+		// the file's package name merely resembles the one in the patch
+		suffix := map[string]string{"file-is-external-test": "_test", "file-longer": "z"}[pkgMode]
+		re := regexp.MustCompile(`(?m)^package ` + regexp.QuoteMeta(hostPkg) + `\b`)
+		loc := re.FindIndex(host)
+		if loc == nil {
+			return nil, "package-clause-not-found"
+		}
+		host = append(append(append([]byte{}, host[:loc[1]]...), suffix...), host[loc[1]:]...)
+		if f, err := parser.ParseFile(token.NewFileSet(), "host.go", host, parser.PackageClauseOnly); err != nil || f.Name.Name != hostPkg+suffix {
+			return nil, "package-clause-not-found"
+		}
+	}
 	if _, err := parser.ParseFile(token.NewFileSet(), "host.go", host, parser.SkipObjectResolution); err != nil {
 		return nil, "planted-host-unparseable"
 	}
